@@ -21,6 +21,18 @@ FAMS = [
                   [oracles.LimitObserver], []),
 ]
 
+
+def _late():
+    # the sweep engine lives with C05/C06; C04 reuses it with its own invariant:
+    # every cancellation point of a request whose arrival evicts several expired
+    # connections at once
+    from .c05 import LimitSweepFamily
+
+    FAMS.append(LimitSweepFamily("C04", "evict-sweep-async", 6, 60))
+
+
+_late()
+
 register("C04", {
     "level": "exploration",
     "rule": "seeded swarm over concurrent pool workloads with max_connections 1..4, "
